@@ -685,6 +685,8 @@ func genTargeted(t *rapid.T) Case {
 	return c
 }
 
+var nestedUsers = []string{"alice/sub1", "alice/sub1/00000000-0000-4000-8000-00000000beef"}
+
 func genCase(t *rapid.T) Case {
 	n := rapid.IntRange(1, 4).Draw(t, "nreq")
 	var c Case
@@ -776,7 +778,8 @@ func genCase(t *rapid.T) Case {
 		// Whatever alice does with a collection of that name addresses alice/sub1 (her collection), never
 		// the collections of the user alice/sub1
 		hdA := map[string]string{"Content-Type": "application/json", "X-User-Id": "alice", "X-Plan-Id": plan}
-		hdN := map[string]string{"Content-Type": "application/json", "X-User-Id": "alice/sub1", "X-Plan-Id": plan}
+		nested := rapid.SampledFrom(nestedUsers).Draw(t, "nt-user") // (a further element may read like a shard id)
+		hdN := map[string]string{"Content-Type": "application/json", "X-User-Id": nested, "X-Plan-Id": plan}
 		mk := func(id string) string {
 			jb, _ := json.Marshal(map[string]any{"id": id, "indexSchema": map[string]any{"size": map[string]any{"type": "integer"}}})
 			return string(jb)
@@ -992,7 +995,7 @@ func (s *server) digestByKey() (string, map[string]string, error) {
 
 func (s *server) digestInner() (parts []string, keys []string, err error) {
 	add := func(key, line string) { parts = append(parts, line); keys = append(keys, key) }
-	for _, u := range []string{"alice", "bob", "alice/sub1"} {
+	for _, u := range append([]string{"alice", "bob"}, nestedUsers...) {
 		cols, err := s.node.ListCollections(u)
 		if err != nil {
 			return nil, nil, err
